@@ -172,6 +172,8 @@ class State:
         self.strattrs = {}
         self.divcache = {}
         self.ovmap = {}
+        self.shlmap = {}
+        self.keep = None
 
     def clone(self):
         return copy.deepcopy(self)
@@ -181,6 +183,7 @@ class PathResult:
     def __init__(self, kind, pc, value=None, msg="", notes=None, st=None):
         self.kind, self.pc, self.value, self.msg, self.notes = kind, pc, value, msg, notes or []
         self.strattrs = st.strattrs if st is not None else {}
+        self.keep = getattr(st, "keep", None) if st is not None else None
 
     def __repr__(self):
         return "Path(%s, %r, %s)" % (self.kind, self.value, self.msg[:60])
@@ -199,6 +202,7 @@ class Executor:
         self.stubs_used = set()
         self.functions_entered = set()
         self._derived = {}
+        self._varcache = {}
         self.overrides = {}
         self.src_root = ""
         self.overflow_checks = True
@@ -213,6 +217,8 @@ class Executor:
 
     # ------------------------------------------------------------ solver helpers
     def feasible(self, pc, extra=None):
+        if extra is not None and is_sym(extra) and self.quick_refute(pc, extra):
+            return False
         t0 = time.time()
         self.solver.push()
         for c in pc:
@@ -227,6 +233,42 @@ class Executor:
             raise Unsupported("solver returned unknown on a branch feasibility query")
         return r == z3.sat
 
+    def _vars(self, e):
+        """ids of the uninterpreted constants in a term (cached)"""
+        k = e.get_id()
+        got = self._varcache.get(k)
+        if got is not None:
+            return got
+        out, stack, seen = set(), [e], set()
+        while stack:
+            x = stack.pop()
+            i = x.get_id()
+            if i in seen:
+                continue
+            seen.add(i)
+            if z3.is_const(x) and x.decl().kind() == z3.Z3_OP_UNINTERPRETED:
+                out.add(i)
+            else:
+                stack.extend(x.children())
+        self._varcache[k] = (out, e)
+        return self._varcache[k]
+
+    def quick_refute(self, pc, cond):
+        """True if the constraints that directly share a variable with cond already refute it
+        (sound: a subset of the path condition)."""
+        cv = self._vars(cond)[0]
+        if not cv:
+            return False
+        sl = [c for c in pc if is_sym(c) and (self._vars(c)[0] & cv)]
+        if not sl or len(sl) > 60:
+            return False
+        s = z3.Solver()
+        s.set("timeout", 2000)
+        s.add(*sl)
+        s.add(cond)
+        self.stats["solver_calls"] += 1
+        return s.check() == z3.unsat
+
     def decide(self, st, cond):
         """Truth value of cond under the path condition; forks (ForkOn) if both are possible."""
         if is_conc(cond):
@@ -235,6 +277,11 @@ class Executor:
         if z3.is_true(c):
             return True
         if z3.is_false(c):
+            return False
+        # the path condition is satisfiable by construction, so refuting one side decides
+        if self.quick_refute(st.pc, z3.Not(cond)):
+            return True
+        if self.quick_refute(st.pc, cond):
             return False
         t = self.feasible(st.pc, cond)
         f = self.feasible(st.pc, z3.Not(cond))
@@ -652,7 +699,9 @@ class Executor:
                 return zint(a) / (1 << b)
             if ca:
                 return self.wrap(a << b, ty)
-            return self.wrap(zint(a) * (1 << b), ty)
+            r = self.wrap(zint(a) * (1 << b), ty)
+            st.shlmap[r.get_id()] = (b, r)
+            return r
         if base in ("BitAnd", "BitOr", "BitXor"):
             if ca and cb:
                 return {"BitAnd": a & b, "BitOr": a | b, "BitXor": a ^ b}[base]
@@ -682,7 +731,8 @@ class Executor:
             if base in ("BitOr", "BitXor") and ty[0] == "u":
                 # (hi << k) | lo with lo < 2^k is hi + lo: try the usual field widths
                 za, zb = zint(a), zint(b)
-                for k in (32, 64, 16, 8):
+                ks = [st.shlmap[x.get_id()][0] for x in (za, zb) if x.get_id() in st.shlmap]
+                for k in ks + [32, 64, 16, 8]:
                     for x, y in ((za, zb), (zb, za)):
                         disjoint = z3.And(x % (1 << k) == 0, y >= 0, y < (1 << k))
                         if not self.feasible(st.pc, z3.Not(disjoint)):
@@ -1192,7 +1242,8 @@ class Executor:
                     continue
                 # the trait's Self type must appear among params/ret
                 tys = [pt for _, pt in c.params] + [c.ret]
-                if not any(norm_ty(selfty) in norm_ty(t) or ty_compat(t, selfty) or ty_compat(re.sub(r"^&(mut )?", "", t), selfty) for t in tys):
+                srx = re.compile(r"(?<![\w])" + re.escape(norm_ty(selfty)) + r"(?![\w])")
+                if not any(srx.search(norm_ty(t)) or ty_compat(t, selfty) or ty_compat(re.sub(r"^&(mut )?", "", t), selfty) for t in tys):
                     continue
                 # `<T as Trait<X>>::m`: X is the type of the last parameter (From, TryFrom,
                 # Add<X>, PartialEq<X>, ...) possibly behind a reference
